@@ -138,6 +138,13 @@ FORMAT_PROGRAMS = [
     'fun cm2() {\n  [ // start\n    1,\n    // middle\n    2,\n  ]\n}\n',
     'fun str3() {\n  let t = ("a\n", "b\n  c",\n"d")\n  t\n}\n',
     'fun uni() {\n  let s = "é\U0001F600" +1\n    // 世界\n  s\n}\n',
+    'fun blank(): String {\n  "a\n\n\n\nb"\n}\nprintln(blank())\n',
+    'fun cont() {\n  if True {\n        let x = "abc\n   def"     println(x)\n  }\n}\ncont()\n',
+    'fun cont2() {\n      let y = ("p\n q", 1)  let z = "r\n\n  s"\n  y\n}\n',
+    'fun letc(): Int {\n  let x // c\n    = 5\n  let y = // d = e\n    6\n  x + y\n}\nprintln(string_repr(letc()))\n',
+    'fun long_function_name_number_one(callback_with_no_arguments: Fun<(), Unit>, another_parameter_name: Int, third: String): Unit { callback_with_no_arguments() }\nlong_function_name_number_one(fun() {}, 1, "a")\n',
+    'fun long_function_name_number_two(unit_tuple_argument: (), pair_argument: (Int, String), nested: List<(Int, ())>, another_parameter: Int): Unit { }\n',
+    'fun trail() {\n      let bottom = "|     \n  +--"\n  let top = "+--   \n  |"\n  bottom ^ top\n}\n   /// Doc comment.   \nfun documented() {}\n',
 ]
 BOUNDED = [
     {"name": "format_corpus", "kind": "format-corpus", "props": ["C17"], "input": FORMAT_PROGRAMS, "globs": ["src/test_files/**/*.gdn", "src/*.gdn"], "max_files": 600,
